@@ -81,12 +81,25 @@ def _sib(cfg):
     return d
 
 
-def _twin(name, f, cfgs, ranges):
-    """iso.<name>: the isolation clause alone (C20), for the configurations of deriv.<name>"""
+PKG_PROPS = {"aerodynamics": ("C04", "C05", "C06", "C07", "C08", "C09", "C18", "C19"), "structures": ("C04", "C07", "C10", "C15", "C16"),
+             "transfer": ("C04", "C07", "C11"), "functionals": ("C04", "C06", "C17"), "geometry": ("C04", "C07", "C13"), "common": ("C17",),
+             "mphys": ("C19", "C11")}
+
+
+def _twin(name, f, cfgs, ranges, path=None):
+    """iso.<name>: the isolation clause alone (C20), for the configurations of deriv.<name>;
+    hist.<name>: the compute-history clause alone, as part of the check of every property that speaks about the outputs of
+    components of that package (their statements quantify over inputs, not over what the instance computed before)"""
     @job("iso." + name, ("C20",), cfgs=cfgs, ranges=ranges, cost=0.3)
     def _g(env, **cfg):
         env.only_isolation = True
         f(env, **cfg)
+    props = PKG_PROPS.get((path or "").split(".")[0])
+    if props:
+        @job("hist." + name, props, cfgs=cfgs, ranges=ranges, cost=0.4)
+        def _h(env, **cfg):
+            env.only_history = ",".join(props)
+            f(env, **cfg)
     return _g
 
 
@@ -97,7 +110,7 @@ def _geo(name, path, opts, ranges=(), cfgs=None, cost=1.0, **dk):
     def _f(env, **cfg):
         env.add_ranges(*MESH_RANGES)
         derivative_contract(env, lambda: cls(path)(**opts(cfg)), sibling=lambda: cls(path)(**opts(_sib(cfg))), **dk)
-    _twin(name, _f, cfgs, ranges)
+    _twin(name, _f, cfgs, ranges, path)
     return _f
 
 
@@ -152,7 +165,7 @@ def _surf(name, path, cfgs=None, ranges=(), cost=1.0, extra_opts=None, surf_kw=N
             return o
         o = opts(cfg)
         derivative_contract(env, lambda: cls(path)(**o), sibling=lambda: cls(path)(**opts(_sib(cfg))), **dk)
-    _twin(name, _f, cfgs, ranges)
+    _twin(name, _f, cfgs, ranges, path)
     return _f
 
 
@@ -170,7 +183,7 @@ def _surfs(name, path, cfgs=None, ranges=(), cost=1.0, extra_opts=None, **dk):
             return o
         o = opts(cfg)
         derivative_contract(env, lambda: cls(path)(**o), sibling=lambda: cls(path)(**opts(_sib(cfg))), **dk)
-    _twin(name, _f, cfgs, ranges)
+    _twin(name, _f, cfgs, ranges, path)
     return _f
 
 
